@@ -1,1 +1,1262 @@
 import PV.Model.Traverse
+import PV.Model.Eval
+import PV.Proofs.Subterm
+import PV.Proofs.UnionPy
+import PV.Proofs.PyEqEquiv
+/-
+  C09 — analyses: free variables / coincidence, `DependencyMapper` (`deps`), flop counters.
+-/
+namespace PV.C09
+open PV
+
+/-! ### all variable names of a tree, and the coincidence lemma -/
+
+mutual
+def fv : Expr → List String
+  | .var x => [x]
+  | .nary _ cs => fvL cs
+  | .bin _ a b => fv a ++ fv b
+  | .un _ a => fv a
+  | .cmp _ a b => fv a ++ fv b
+  | .ite c t e => fv c ++ fv t ++ fv e
+  | .call f as => fv f ++ fvL as
+  | .callKw f as _ vs => fv f ++ fvL as ++ fvL vs
+  | .subscript a i => fv a ++ fv i
+  | .lookup a _ => fv a
+  | .cse c _ _ => fv c
+  | .subst c _ xs => fv c ++ fvL xs
+  | .deriv c _ => fv c
+  | .slice cs => fvL cs
+  | .tuple cs => fvL cs
+  | .list cs => fvL cs
+  | _ => []
+def fvL : List Expr → List String
+  | [] => []
+  | c :: cs => fv c ++ fvL cs
+end
+
+section
+variable {env₁ env₂ : Env}
+
+/-- agreement of two environments on a set of names -/
+def Agree (env₁ env₂ : Env) (xs : List String) : Prop := ∀ x ∈ xs, env₁.get x = env₂.get x
+
+theorem Agree.left {xs ys : List String} (h : Agree env₁ env₂ (xs ++ ys)) : Agree env₁ env₂ xs :=
+  fun x hx => h x (List.mem_append_left _ hx)
+theorem Agree.right {xs ys : List String} (h : Agree env₁ env₂ (xs ++ ys)) : Agree env₁ env₂ ys :=
+  fun x hx => h x (List.mem_append_right _ hx)
+
+mutual
+/-- **Coincidence.**  Evaluation depends on the environment only through the variables that occur
+in the tree: outside `fv e` no value is ever needed. -/
+theorem coincidence : ∀ e : Expr, Agree env₁ env₂ (fv e) → den env₁ e = den env₂ e
+  | .var x, h => by simp only [den, h x (by simp [fv])]
+  | .const _, _ => by simp only [den]
+  | .nan, _ => by simp only [den]
+  | .wildcard, _ => by simp only [den]
+  | .dotWild _, _ => by simp only [den]
+  | .starWild _, _ => by simp only [den]
+  | .funcSym, _ => by simp only [den]
+  | .deriv _ _, _ => by simp only [den]
+  | .subst _ _ _, _ => by simp only [den]
+  | .slice _, _ => by simp only [den]
+  | .subscript a b, h => by
+      simp only [fv] at h
+      simp only [den, coincidence a h.left, coincidence b h.right]
+  | .lookup a n, h => by
+      simp only [fv] at h
+      simp only [den, coincidence a h]
+  | .bin o a b, h => by
+      simp only [fv] at h
+      simp only [den, coincidence a h.left, coincidence b h.right]
+  | .cmp o a b, h => by
+      simp only [fv] at h
+      simp only [den, coincidence a h.left, coincidence b h.right]
+  | .un o a, h => by
+      simp only [fv] at h
+      cases o <;> simp only [den, coincidence a h]
+  | .cse a p s, h => by
+      simp only [fv] at h
+      simp only [den, coincidence a h]
+  | .ite a b c, h => by
+      simp only [fv] at h
+      simp only [den, coincidence a h.left.left, coincidence b h.left.right, coincidence c h.right]
+  | .nary o cs, h => by
+      simp only [fv] at h
+      cases o <;> simp only [den]
+      · exact denFold_coinc .sum _ cs h
+      · exact denFold_coinc .prod _ cs h
+      · exact denReduce_coinc .bor cs h
+      · exact denReduce_coinc .bxor cs h
+      · exact denReduce_coinc .band cs h
+      · exact denAny_coinc cs h
+      · exact denAll_coinc cs h
+      · exact denMinMax_coinc true none cs h
+      · exact denMinMax_coinc false none cs h
+  | .tuple cs, h => by
+      simp only [fv] at h
+      simp only [den, denList_coinc cs h]
+  | .list cs, h => by
+      simp only [fv] at h
+      simp only [den, denList_coinc cs h]
+  | .call a cs, h => by
+      simp only [fv] at h
+      simp only [den, coincidence a h.left, denList_coinc cs h.right]
+  | .callKw a bs ns cs, h => by
+      simp only [fv] at h
+      simp only [den, coincidence a h.left.left, denList_coinc bs h.left.right,
+        denList_coinc cs h.right]
+theorem denFold_coinc (o : NaryOp) : ∀ (acc : Value) (cs : List Expr), Agree env₁ env₂ (fvL cs) →
+    denFold env₁ o acc cs = denFold env₂ o acc cs
+  | _, [], _ => by simp only [denFold]
+  | acc, c :: cs, h => by
+      simp only [fvL] at h
+      simp only [denFold, coincidence c h.left]
+      cases den env₂ c with
+      | error e => rfl
+      | ok v =>
+        simp only [bind, Except.bind]
+        cases o.apply acc v with
+        | error e => rfl
+        | ok acc' => exact denFold_coinc o acc' cs h.right
+theorem denReduce_coinc (o : NaryOp) : ∀ (cs : List Expr), Agree env₁ env₂ (fvL cs) →
+    denReduce env₁ o cs = denReduce env₂ o cs
+  | [], _ => by simp only [denReduce]
+  | c :: cs, h => by
+      simp only [fvL] at h
+      simp only [denReduce, coincidence c h.left]
+      cases den env₂ c with
+      | error e => rfl
+      | ok v => exact denFold_coinc o v cs h.right
+theorem denAny_coinc : ∀ (cs : List Expr), Agree env₁ env₂ (fvL cs) →
+    denAny env₁ cs = denAny env₂ cs
+  | [], _ => by simp only [denAny]
+  | c :: cs, h => by
+      simp only [fvL] at h
+      simp only [denAny, coincidence c h.left, denAny_coinc cs h.right]
+theorem denAll_coinc : ∀ (cs : List Expr), Agree env₁ env₂ (fvL cs) →
+    denAll env₁ cs = denAll env₂ cs
+  | [], _ => by simp only [denAll]
+  | c :: cs, h => by
+      simp only [fvL] at h
+      simp only [denAll, coincidence c h.left, denAll_coinc cs h.right]
+theorem denMinMax_coinc (isMin : Bool) : ∀ (cur : Option Value) (cs : List Expr),
+    Agree env₁ env₂ (fvL cs) → denMinMax env₁ isMin cur cs = denMinMax env₂ isMin cur cs
+  | _, [], _ => by simp only [denMinMax]
+  | cur, c :: cs, h => by
+      simp only [fvL] at h
+      simp only [denMinMax, coincidence c h.left]
+      cases den env₂ c with
+      | error e => rfl
+      | ok v =>
+        simp only [bind, Except.bind]
+        cases cur with
+        | none => exact denMinMax_coinc isMin (some v) cs h.right
+        | some m =>
+          simp only
+          cases Value.better isMin v m with
+          | error e => rfl
+          | ok b => exact denMinMax_coinc isMin _ cs h.right
+theorem denList_coinc : ∀ (cs : List Expr), Agree env₁ env₂ (fvL cs) →
+    denList env₁ cs = denList env₂ cs
+  | [], _ => by simp only [denList]
+  | c :: cs, h => by
+      simp only [fvL] at h
+      simp only [denList, coincidence c h.left, denList_coinc cs h.right]
+end
+end
+
+/-! ### `DependencyMapper` with all composite flags off computes exactly the variables -/
+
+def offFlags : DepFlags := { subscripts := false, lookups := false, calls := .no, cses := false }
+
+/-- `r` is a list of variable nodes whose names are exactly `names` (as sets) -/
+def VarSet (r : List Expr) (names : List String) : Prop :=
+  (∀ y ∈ r, ∃ x, y = .var x) ∧ ∀ x, .var x ∈ r ↔ x ∈ names
+
+theorem VarSet.nil : VarSet [] [] := ⟨by simp, by simp⟩
+
+theorem VarSet.single (x : String) : VarSet [.var x] [x] := ⟨by simp, by simp⟩
+
+theorem VarSet.union {a b : List Expr} {n m : List String} (ha : VarSet a n) (hb : VarSet b m) :
+    VarSet (unionPy a b) (n ++ m) := by
+  constructor
+  · intro y hy
+    rcases mem_unionPy hy with h | h
+    · exact ha.1 y h
+    · exact hb.1 y h
+  · intro x
+    rw [mem_unionPy_var, ha.2, hb.2, List.mem_append]
+
+mutual
+theorem deps_off : ∀ (e : Expr) (r : List Expr), deps offFlags e = .ok r → VarSet r (fv e)
+  | .const c, r, h => by
+      cases c <;> simp only [deps] at h <;> cases h <;> exact VarSet.nil
+  | .var x, r, h => by cases h; exact VarSet.single x
+  | .nan, r, h => by cases h; exact VarSet.nil
+  | .wildcard, r, h => by cases h; exact VarSet.nil
+  | .dotWild _, r, h => by cases h; exact VarSet.nil
+  | .starWild _, r, h => by cases h; exact VarSet.nil
+  | .funcSym, r, h => by cases h; exact VarSet.nil
+  | .subst .., r, h => by cases h
+  | .deriv .., r, h => by cases h
+  | .bin o a b, r, h => by
+      simp only [deps] at h
+      obtain ⟨x, hx, h⟩ := except_bind_ok h
+      obtain ⟨y, hy, h⟩ := except_bind_ok h
+      cases h
+      exact (deps_off a x hx).union (deps_off b y hy)
+  | .cmp o a b, r, h => by
+      simp only [deps] at h
+      obtain ⟨x, hx, h⟩ := except_bind_ok h
+      obtain ⟨y, hy, h⟩ := except_bind_ok h
+      cases h
+      exact (deps_off a x hx).union (deps_off b y hy)
+  | .subscript a b, r, h => by
+      simp only [deps, offFlags, Bool.false_eq_true, if_false] at h
+      obtain ⟨x, hx, h⟩ := except_bind_ok h
+      obtain ⟨y, hy, h⟩ := except_bind_ok h
+      cases h
+      exact (deps_off a x hx).union (deps_off b y hy)
+  | .ite a b c, r, h => by
+      simp only [deps] at h
+      obtain ⟨x, hx, h⟩ := except_bind_ok h
+      obtain ⟨y, hy, h⟩ := except_bind_ok h
+      obtain ⟨z, hz, h⟩ := except_bind_ok h
+      cases h
+      exact ((deps_off a x hx).union (deps_off b y hy)).union (deps_off c z hz)
+  | .un o a, r, h => by
+      simp only [deps] at h
+      exact deps_off a r h
+  | .lookup a n, r, h => by
+      simp only [deps, offFlags, Bool.false_eq_true, if_false] at h
+      exact deps_off a r h
+  | .cse a p s, r, h => by
+      simp only [deps, offFlags, Bool.false_eq_true, if_false] at h
+      split at h
+      · cases h
+      · exact deps_off a r h
+  | .nary o cs, r, h => by
+      simp only [deps] at h
+      exact depsL_off cs r h
+  | .tuple cs, r, h => by
+      simp only [deps] at h
+      exact depsL_off cs r h
+  | .list cs, r, h => by
+      simp only [deps] at h
+      exact depsL_off cs r h
+  | .slice cs, r, h => by
+      simp only [deps] at h
+      exact depsSlice_off cs r h
+  | .call a cs, r, h => by
+      simp only [deps, offFlags] at h
+      obtain ⟨x, hx, h⟩ := except_bind_ok h
+      obtain ⟨y, hy, h⟩ := except_bind_ok h
+      cases h
+      exact (deps_off a x hx).union (depsL_off cs y hy)
+  | .callKw a bs ns cs, r, h => by
+      simp only [deps, offFlags] at h
+      obtain ⟨x, hx, h⟩ := except_bind_ok h
+      obtain ⟨y, hy, h⟩ := except_bind_ok h
+      obtain ⟨z, hz, h⟩ := except_bind_ok h
+      cases h
+      exact ((deps_off a x hx).union (depsL_off bs y hy)).union (depsL_off cs z hz)
+theorem depsL_off : ∀ (cs : List Expr) (r : List Expr), depsL offFlags cs = .ok r →
+    VarSet r (fvL cs)
+  | [], r, h => by cases h; exact VarSet.nil
+  | c :: cs, r, h => by
+      simp only [depsL] at h
+      obtain ⟨x, hx, h⟩ := except_bind_ok h
+      obtain ⟨y, hy, h⟩ := except_bind_ok h
+      cases h
+      exact (deps_off c x hx).union (depsL_off cs y hy)
+theorem depsSlice_off : ∀ (cs : List Expr) (r : List Expr), depsSlice offFlags cs = .ok r →
+    VarSet r (fvL cs)
+  | [], r, h => by cases h; exact VarSet.nil
+  | c :: cs, r, h => by
+      by_cases hc : c = .const .none
+      · subst hc
+        simp only [depsSlice] at h
+        simpa [fvL, fv] using depsSlice_off cs r h
+      · rw [depsSlice.eq_3 _ _ _ hc] at h
+        obtain ⟨x, hx, h⟩ := except_bind_ok h
+        obtain ⟨y, hy, h⟩ := except_bind_ok h
+        cases h
+        exact (deps_off c x hx).union (depsSlice_off cs y hy)
+end
+
+/-- With subscripts, lookups, calls and CSEs all switched off, a successful `DependencyMapper` run
+returns variable nodes only, and their names are exactly the variables occurring in the tree. -/
+theorem deps_off_eq_fv (e : Expr) (r : List Expr) (h : deps offFlags e = .ok r) :
+    (∀ y ∈ r, ∃ x, y = .var x) ∧ ∀ x, .var x ∈ r ↔ x ∈ fv e :=
+  deps_off e r h
+
+/-! ### flop counting -/
+
+/-- arithmetic operations performed AT a node: an n-ary sum/product (n ≥ 1) performs n − 1,
+quotient / floor division / power perform one, everything else none -/
+def opWeight : Expr → Nat
+  | .nary .sum cs => cs.length - 1
+  | .nary .prod cs => cs.length - 1
+  | .bin .quot _ _ => 1
+  | .bin .floordiv _ _ => 1
+  | .bin .pow _ _ => 1
+  | _ => 0
+
+mutual
+/-- independent specification: the operations of the node plus those of all its children -/
+def countOps : Expr → Nat
+  | .nary o cs => opWeight (.nary o cs) + countOpsL cs
+  | .bin o a b => opWeight (.bin o a b) + countOps a + countOps b
+  | .un _ a => countOps a
+  | .cmp _ a b => countOps a + countOps b
+  | .ite c t e => countOps c + countOps t + countOps e
+  | .call f as => countOps f + countOpsL as
+  | .callKw f as _ vs => countOps f + countOpsL as + countOpsL vs
+  | .subscript a i => countOps a + countOps i
+  | .lookup a _ => countOps a
+  | .cse c _ _ => countOps c
+  | .subst c _ xs => countOps c + countOpsL xs
+  | .deriv c _ => countOps c
+  | .slice cs => countOpsL cs
+  | .tuple cs => countOpsL cs
+  | .list cs => countOpsL cs
+  | _ => 0
+def countOpsL : List Expr → Nat
+  | [] => 0
+  | c :: cs => countOps c + countOpsL cs
+end
+
+theorem except_pair_bind_ok {ε α β γ : Type} {x : Except ε (α × β)} {f : α × β → Except ε γ}
+    {r : γ} (h : (x >>= f) = .ok r) : ∃ a b, x = .ok (a, b) ∧ f (a, b) = .ok r := by
+  cases x with
+  | error e => cases h
+  | ok p => exact ⟨p.1, p.2, rfl, h⟩
+
+mutual
+theorem flops_spec : ∀ (e : Expr) (seen : List Expr) (n : Nat) (seen' : List Expr),
+    flopsG false e seen = .ok (n, seen') → n = countOps e ∧ seen' = seen
+  | .const c, seen, n, seen', h => by
+      cases c <;> simp only [flopsG] at h <;> cases h <;> simp [countOps]
+  | .var x, seen, n, seen', h => by cases h; simp [countOps]
+  | .nary o cs, seen, n, seen', h => by
+      cases o <;> simp only [flopsG] at h
+      case sum | prod =>
+        obtain ⟨m, s1, h1, h⟩ := except_pair_bind_ok h
+        cases h
+        obtain ⟨rfl, rfl⟩ := flopsL_spec cs seen m s1 h1
+        refine ⟨?_, rfl⟩
+        simp only [countOps, opWeight]; omega
+      all_goals
+        obtain ⟨rfl, rfl⟩ := flopsL_spec cs seen n seen' h
+        simp [countOps, opWeight]
+  | .bin o a b, seen, n, seen', h => by
+      cases o <;> simp only [flopsG] at h <;>
+      · obtain ⟨x, s1, h1, h⟩ := except_pair_bind_ok h
+        obtain ⟨y, s2, h2, h⟩ := except_pair_bind_ok h
+        cases h
+        obtain ⟨rfl, rfl⟩ := flops_spec a seen x s1 h1
+        obtain ⟨rfl, rfl⟩ := flops_spec b _ y s2 h2
+        refine ⟨?_, rfl⟩
+        simp only [countOps, opWeight] <;> omega
+  | .cmp o a b, seen, n, seen', h => by
+      simp only [flopsG] at h
+      obtain ⟨x, s1, h1, h⟩ := except_pair_bind_ok h
+      obtain ⟨y, s2, h2, h⟩ := except_pair_bind_ok h
+      cases h
+      obtain ⟨rfl, rfl⟩ := flops_spec a seen x s1 h1
+      obtain ⟨rfl, rfl⟩ := flops_spec b _ y s2 h2
+      simp [countOps]
+  | .subscript a b, seen, n, seen', h => by
+      simp only [flopsG] at h
+      obtain ⟨x, s1, h1, h⟩ := except_pair_bind_ok h
+      obtain ⟨y, s2, h2, h⟩ := except_pair_bind_ok h
+      cases h
+      obtain ⟨rfl, rfl⟩ := flops_spec a seen x s1 h1
+      obtain ⟨rfl, rfl⟩ := flops_spec b _ y s2 h2
+      simp [countOps]
+  | .ite a b c, seen, n, seen', h => by
+      simp only [flopsG] at h
+      obtain ⟨x, s1, h1, h⟩ := except_pair_bind_ok h
+      obtain ⟨y, s2, h2, h⟩ := except_pair_bind_ok h
+      obtain ⟨z, s3, h3, h⟩ := except_pair_bind_ok h
+      cases h
+      obtain ⟨rfl, rfl⟩ := flops_spec a seen x s1 h1
+      obtain ⟨rfl, rfl⟩ := flops_spec b _ y s2 h2
+      obtain ⟨rfl, rfl⟩ := flops_spec c _ z s3 h3
+      simp [countOps]
+  | .un o a, seen, n, seen', h => by
+      simp only [flopsG] at h
+      simpa [countOps] using flops_spec a seen n seen' h
+  | .lookup a _, seen, n, seen', h => by
+      simp only [flopsG] at h
+      simpa [countOps] using flops_spec a seen n seen' h
+  | .cse a _ _, seen, n, seen', h => by
+      simp only [flopsG, Bool.false_eq_true, if_false] at h
+      simpa [countOps] using flops_spec a seen n seen' h
+  | .tuple cs, seen, n, seen', h => by
+      simp only [flopsG] at h
+      simpa [countOps] using flopsL_spec cs seen n seen' h
+  | .list cs, seen, n, seen', h => by
+      simp only [flopsG] at h
+      simpa [countOps] using flopsL_spec cs seen n seen' h
+  | .call a cs, seen, n, seen', h => by
+      simp only [flopsG] at h
+      obtain ⟨x, s1, h1, h⟩ := except_pair_bind_ok h
+      obtain ⟨y, s2, h2, h⟩ := except_pair_bind_ok h
+      cases h
+      obtain ⟨rfl, rfl⟩ := flops_spec a seen x s1 h1
+      obtain ⟨rfl, rfl⟩ := flopsL_spec cs _ y s2 h2
+      simp [countOps]
+  | .callKw a bs _ cs, seen, n, seen', h => by
+      simp only [flopsG] at h
+      obtain ⟨x, s1, h1, h⟩ := except_pair_bind_ok h
+      obtain ⟨y, s2, h2, h⟩ := except_pair_bind_ok h
+      obtain ⟨z, s3, h3, h⟩ := except_pair_bind_ok h
+      cases h
+      obtain ⟨rfl, rfl⟩ := flops_spec a seen x s1 h1
+      obtain ⟨rfl, rfl⟩ := flopsL_spec bs _ y s2 h2
+      obtain ⟨rfl, rfl⟩ := flopsL_spec cs _ z s3 h3
+      simp [countOps]
+  | .subst .., seen, n, seen', h => by simp [flopsG] at h
+  | .deriv .., seen, n, seen', h => by simp [flopsG] at h
+  | .slice _, seen, n, seen', h => by simp [flopsG] at h
+  | .nan, seen, n, seen', h => by simp [flopsG] at h
+  | .wildcard, seen, n, seen', h => by simp [flopsG] at h
+  | .dotWild _, seen, n, seen', h => by simp [flopsG] at h
+  | .starWild _, seen, n, seen', h => by simp [flopsG] at h
+  | .funcSym, seen, n, seen', h => by simp [flopsG] at h
+theorem flopsL_spec : ∀ (cs : List Expr) (seen : List Expr) (n : Nat) (seen' : List Expr),
+    flopsL false cs seen = .ok (n, seen') → n = countOpsL cs ∧ seen' = seen
+  | [], seen, n, seen', h => by cases h; simp [countOpsL]
+  | c :: cs, seen, n, seen', h => by
+      simp only [flopsL] at h
+      obtain ⟨x, s1, h1, h⟩ := except_pair_bind_ok h
+      obtain ⟨y, s2, h2, h⟩ := except_pair_bind_ok h
+      cases h
+      obtain ⟨rfl, rfl⟩ := flops_spec c seen x s1 h1
+      obtain ⟨rfl, rfl⟩ := flopsL_spec cs _ y s2 h2
+      simp [countOpsL]
+end
+
+/-- The plain `FlopCounter` returns exactly the independently specified operation count and does
+not touch the seen-set. -/
+theorem flops_eq_count (e : Expr) (seen : List Expr) (n : Nat) (seen' : List Expr)
+    (h : flopsG false e seen = .ok (n, seen')) : n = countOps e ∧ seen' = seen :=
+  flops_spec e seen n seen' h
+
+/-- `CSEAwareFlopCounter`: a common subexpression already seen (up to Python `==`) costs nothing
+and leaves the seen-set alone. -/
+theorem flopsCse_once (c : Expr) (p : Option String) (s : String) (seen : List Expr)
+    (hl : c.hasList = false) (h : seen.any (fun k => k.pyEq (.cse c p s)) = true) :
+    flopsG true (.cse c p s) seen = .ok (0, seen) := by
+  simp [flopsG, hl, h]; rfl
+
+/-- … and the first time it costs what its child costs, and is recorded. -/
+theorem flopsCse_first (c : Expr) (p : Option String) (s : String) (seen : List Expr)
+    (hl : c.hasList = false) (h : seen.any (fun k => k.pyEq (.cse c p s)) = false) :
+    flopsG true (.cse c p s) seen = flopsG true c (seen ++ [.cse c p s]) := by
+  simp [flopsG, hl, h]
+
+mutual
+theorem flopsCse_le_aux : ∀ (e : Expr) (seen : List Expr) (n : Nat) (seen' : List Expr),
+    flopsG true e seen = .ok (n, seen') → n ≤ countOps e
+  | .const c, seen, n, seen', h => by
+      cases c <;> simp only [flopsG] at h <;> cases h <;> simp
+  | .var x, seen, n, seen', h => by cases h; simp
+  | .nary o cs, seen, n, seen', h => by
+      cases o <;> simp only [flopsG] at h
+      case sum | prod =>
+        obtain ⟨m, s1, h1, h⟩ := except_pair_bind_ok h
+        cases h
+        have := flopsCseL_le_aux cs seen m s1 h1
+        simp only [countOps, opWeight]; omega
+      all_goals
+        have := flopsCseL_le_aux cs seen n seen' h
+        simp only [countOps, opWeight]; omega
+  | .bin o a b, seen, n, seen', h => by
+      cases o <;> simp only [flopsG] at h <;>
+      · obtain ⟨x, s1, h1, h⟩ := except_pair_bind_ok h
+        obtain ⟨y, s2, h2, h⟩ := except_pair_bind_ok h
+        cases h
+        have := flopsCse_le_aux a seen x s1 h1
+        have := flopsCse_le_aux b _ y s2 h2
+        simp only [countOps, opWeight]; omega
+  | .cmp o a b, seen, n, seen', h => by
+      simp only [flopsG] at h
+      obtain ⟨x, s1, h1, h⟩ := except_pair_bind_ok h
+      obtain ⟨y, s2, h2, h⟩ := except_pair_bind_ok h
+      cases h
+      have := flopsCse_le_aux a seen x s1 h1
+      have := flopsCse_le_aux b _ y s2 h2
+      simp only [countOps]; omega
+  | .subscript a b, seen, n, seen', h => by
+      simp only [flopsG] at h
+      obtain ⟨x, s1, h1, h⟩ := except_pair_bind_ok h
+      obtain ⟨y, s2, h2, h⟩ := except_pair_bind_ok h
+      cases h
+      have := flopsCse_le_aux a seen x s1 h1
+      have := flopsCse_le_aux b _ y s2 h2
+      simp only [countOps]; omega
+  | .ite a b c, seen, n, seen', h => by
+      simp only [flopsG] at h
+      obtain ⟨x, s1, h1, h⟩ := except_pair_bind_ok h
+      obtain ⟨y, s2, h2, h⟩ := except_pair_bind_ok h
+      obtain ⟨z, s3, h3, h⟩ := except_pair_bind_ok h
+      cases h
+      have := flopsCse_le_aux a seen x s1 h1
+      have := flopsCse_le_aux b _ y s2 h2
+      have := flopsCse_le_aux c _ z s3 h3
+      simp only [countOps]; omega
+  | .un o a, seen, n, seen', h => by
+      simp only [flopsG] at h
+      simpa [countOps] using flopsCse_le_aux a seen n seen' h
+  | .lookup a _, seen, n, seen', h => by
+      simp only [flopsG] at h
+      simpa [countOps] using flopsCse_le_aux a seen n seen' h
+  | .cse a _ _, seen, n, seen', h => by
+      simp only [flopsG, if_true] at h
+      split at h
+      · cases h
+      · split at h
+        · cases h; simp
+        · simpa [countOps] using flopsCse_le_aux a _ n seen' h
+  | .tuple cs, seen, n, seen', h => by
+      simp only [flopsG] at h
+      simpa [countOps] using flopsCseL_le_aux cs seen n seen' h
+  | .list cs, seen, n, seen', h => by
+      simp only [flopsG] at h
+      simpa [countOps] using flopsCseL_le_aux cs seen n seen' h
+  | .call a cs, seen, n, seen', h => by
+      simp only [flopsG] at h
+      obtain ⟨x, s1, h1, h⟩ := except_pair_bind_ok h
+      obtain ⟨y, s2, h2, h⟩ := except_pair_bind_ok h
+      cases h
+      have := flopsCse_le_aux a seen x s1 h1
+      have := flopsCseL_le_aux cs _ y s2 h2
+      simp only [countOps]; omega
+  | .callKw a bs _ cs, seen, n, seen', h => by
+      simp only [flopsG] at h
+      obtain ⟨x, s1, h1, h⟩ := except_pair_bind_ok h
+      obtain ⟨y, s2, h2, h⟩ := except_pair_bind_ok h
+      obtain ⟨z, s3, h3, h⟩ := except_pair_bind_ok h
+      cases h
+      have := flopsCse_le_aux a seen x s1 h1
+      have := flopsCseL_le_aux bs _ y s2 h2
+      have := flopsCseL_le_aux cs _ z s3 h3
+      simp only [countOps]; omega
+  | .subst .., seen, n, seen', h => by simp [flopsG] at h
+  | .deriv .., seen, n, seen', h => by simp [flopsG] at h
+  | .slice _, seen, n, seen', h => by simp [flopsG] at h
+  | .nan, seen, n, seen', h => by simp [flopsG] at h
+  | .wildcard, seen, n, seen', h => by simp [flopsG] at h
+  | .dotWild _, seen, n, seen', h => by simp [flopsG] at h
+  | .starWild _, seen, n, seen', h => by simp [flopsG] at h
+  | .funcSym, seen, n, seen', h => by simp [flopsG] at h
+theorem flopsCseL_le_aux : ∀ (cs : List Expr) (seen : List Expr) (n : Nat) (seen' : List Expr),
+    flopsL true cs seen = .ok (n, seen') → n ≤ countOpsL cs
+  | [], seen, n, seen', h => by cases h; simp
+  | c :: cs, seen, n, seen', h => by
+      simp only [flopsL] at h
+      obtain ⟨x, s1, h1, h⟩ := except_pair_bind_ok h
+      obtain ⟨y, s2, h2, h⟩ := except_pair_bind_ok h
+      cases h
+      have := flopsCse_le_aux c seen x s1 h1
+      have := flopsCseL_le_aux cs _ y s2 h2
+      simp only [countOpsL]; omega
+end
+
+/-- The CSE-aware counter never reports more than the plain operation count. -/
+theorem flopsCse_le (e : Expr) (seen : List Expr) (n : Nat) (seen' : List Expr)
+    (h : flopsG true e seen = .ok (n, seen')) : n ≤ countOps e :=
+  flopsCse_le_aux e seen n seen' h
+
+/-- non-vacuity: `(x + 1) * (x + 1) / y` with a shared CSE: plain count 4, CSE-aware count 3 -/
+example :
+    let c := Expr.cse (.nary .sum [.var "x", .const (.int 1)]) none "s"
+    let e := Expr.bin .quot (.nary .prod [c, c]) (.var "y")
+    flopsG false e [] = .ok (4, []) ∧ countOps e = 4 ∧ flopsG true e [] = .ok (3, [c]) :=
+  ⟨rfl, rfl, rfl⟩
+
+/-! ### what `DependencyMapper` reports, for arbitrary flags -/
+
+/-- the node kinds the flags select as atomic dependencies (variables always) -/
+def Selected (fl : DepFlags) : Expr → Prop
+  | .var _ => True
+  | .subscript .. => fl.subscripts = true
+  | .lookup .. => fl.lookups = true
+  | .call .. => fl.calls = .yes
+  | .callKw .. => fl.calls = .yes
+  | .cse .. => fl.cses = true
+  | _ => False
+
+/-- `Occurs fl e x`: `x` is a variable occurrence of `e`, or an OUTERMOST selected
+subscript / lookup / call / CSE of `e`.  Inside a selected composite nothing is reported; with
+`calls = .descend` the function of a call is skipped and only its arguments are searched. -/
+inductive Occurs (fl : DepFlags) : Expr → Expr → Prop
+  | var (x : String) : Occurs fl (.var x) (.var x)
+  | call_sel {f : Expr} {as : List Expr} : fl.calls = .yes → Occurs fl (.call f as) (.call f as)
+  | call_fn {f : Expr} {as : List Expr} {x : Expr} : fl.calls = .no → Occurs fl f x →
+      Occurs fl (.call f as) x
+  | call_arg {f : Expr} {as : List Expr} {c x : Expr} : fl.calls ≠ .yes → c ∈ as → Occurs fl c x →
+      Occurs fl (.call f as) x
+  | callKw_sel {f : Expr} {as : List Expr} {ns : List String} {vs : List Expr} : fl.calls = .yes →
+      Occurs fl (.callKw f as ns vs) (.callKw f as ns vs)
+  | callKw_fn {f : Expr} {as : List Expr} {ns : List String} {vs : List Expr} {x : Expr} :
+      fl.calls = .no → Occurs fl f x → Occurs fl (.callKw f as ns vs) x
+  | callKw_arg {f : Expr} {as : List Expr} {ns : List String} {vs : List Expr} {c x : Expr} :
+      fl.calls ≠ .yes → c ∈ as → Occurs fl c x → Occurs fl (.callKw f as ns vs) x
+  | callKw_kwarg {f : Expr} {as : List Expr} {ns : List String} {vs : List Expr} {c x : Expr} :
+      fl.calls ≠ .yes → c ∈ vs → Occurs fl c x → Occurs fl (.callKw f as ns vs) x
+  | lookup_sel {a : Expr} {n : String} : fl.lookups = true → Occurs fl (.lookup a n) (.lookup a n)
+  | lookup_in {a : Expr} {n : String} {x : Expr} : fl.lookups = false → Occurs fl a x →
+      Occurs fl (.lookup a n) x
+  | subscript_sel {a i : Expr} : fl.subscripts = true → Occurs fl (.subscript a i) (.subscript a i)
+  | subscript_l {a i x : Expr} : fl.subscripts = false → Occurs fl a x →
+      Occurs fl (.subscript a i) x
+  | subscript_r {a i x : Expr} : fl.subscripts = false → Occurs fl i x →
+      Occurs fl (.subscript a i) x
+  | cse_sel {c : Expr} {p : Option String} {s : String} : fl.cses = true →
+      Occurs fl (.cse c p s) (.cse c p s)
+  | cse_in {c : Expr} {p : Option String} {s : String} {x : Expr} : fl.cses = false →
+      Occurs fl c x → Occurs fl (.cse c p s) x
+  | nary {o : NaryOp} {cs : List Expr} {c x : Expr} : c ∈ cs → Occurs fl c x →
+      Occurs fl (.nary o cs) x
+  | bin_l {o : BinOp} {a b x : Expr} : Occurs fl a x → Occurs fl (.bin o a b) x
+  | bin_r {o : BinOp} {a b x : Expr} : Occurs fl b x → Occurs fl (.bin o a b) x
+  | un {o : UnOp} {a x : Expr} : Occurs fl a x → Occurs fl (.un o a) x
+  | cmp_l {o : CmpOp} {a b x : Expr} : Occurs fl a x → Occurs fl (.cmp o a b) x
+  | cmp_r {o : CmpOp} {a b x : Expr} : Occurs fl b x → Occurs fl (.cmp o a b) x
+  | ite_c {c t e x : Expr} : Occurs fl c x → Occurs fl (.ite c t e) x
+  | ite_t {c t e x : Expr} : Occurs fl t x → Occurs fl (.ite c t e) x
+  | ite_e {c t e x : Expr} : Occurs fl e x → Occurs fl (.ite c t e) x
+  | slice {cs : List Expr} {c x : Expr} : c ∈ cs → Occurs fl c x → Occurs fl (.slice cs) x
+  | tuple {cs : List Expr} {c x : Expr} : c ∈ cs → Occurs fl c x → Occurs fl (.tuple cs) x
+  | list {cs : List Expr} {c x : Expr} : c ∈ cs → Occurs fl c x → Occurs fl (.list cs) x
+
+/-- an occurrence is a subterm of a selected kind -/
+theorem Occurs.subterm_selected {fl : DepFlags} {e x : Expr} (h : Occurs fl e x) :
+    Subterm x e ∧ Selected fl x := by
+  induction h with
+  | var x => exact ⟨.refl _, trivial⟩
+  | call_sel h => exact ⟨.refl _, h⟩
+  | callKw_sel h => exact ⟨.refl _, h⟩
+  | lookup_sel h => exact ⟨.refl _, h⟩
+  | subscript_sel h => exact ⟨.refl _, h⟩
+  | cse_sel h => exact ⟨.refl _, h⟩
+  | call_arg _ hc _ ih | callKw_arg _ hc _ ih | callKw_kwarg _ hc _ ih | nary hc _ ih
+  | slice hc _ ih | tuple hc _ ih | list hc _ ih =>
+      exact ⟨ih.1.trans (.child (by simp [Expr.children, hc])), ih.2⟩
+  | call_fn _ _ ih | callKw_fn _ _ ih | lookup_in _ _ ih | subscript_l _ _ ih
+  | subscript_r _ _ ih | cse_in _ _ ih | bin_l _ ih | bin_r _ ih | un _ ih | cmp_l _ ih
+  | cmp_r _ ih | ite_c _ ih | ite_t _ ih | ite_e _ ih =>
+      exact ⟨ih.1.trans (.child (by simp [Expr.children])), ih.2⟩
+
+theorem depSingle_mem {e y : Expr} {r : List Expr} (h : depSingle e = .ok r) (hy : y ∈ r) :
+    y = e := by
+  unfold depSingle at h
+  split at h
+  · cases h
+  · cases h; simpa using hy
+
+section
+variable {fl : DepFlags}
+
+mutual
+theorem deps_occ : ∀ (e : Expr) (r : List Expr), deps fl e = .ok r → ∀ y ∈ r, Occurs fl e y
+  | .const c, r, h, y, hy => by
+      cases c <;> simp only [deps] at h <;> cases h <;> simp at hy
+  | .var x, r, h, y, hy => by
+      cases h; simp only [List.mem_singleton] at hy; subst hy; exact .var x
+  | .nan, r, h, y, hy => by cases h; simp at hy
+  | .wildcard, r, h, y, hy => by cases h; simp at hy
+  | .dotWild _, r, h, y, hy => by cases h; simp at hy
+  | .starWild _, r, h, y, hy => by cases h; simp at hy
+  | .funcSym, r, h, y, hy => by cases h; simp at hy
+  | .subst .., r, h, _, _ => by cases h
+  | .deriv .., r, h, _, _ => by cases h
+  | .bin o a b, r, h, y, hy => by
+      simp only [deps] at h
+      obtain ⟨x, hx, h⟩ := except_bind_ok h
+      obtain ⟨z, hz, h⟩ := except_bind_ok h
+      cases h
+      rcases mem_unionPy hy with hy | hy
+      · exact .bin_l (deps_occ a x hx y hy)
+      · exact .bin_r (deps_occ b z hz y hy)
+  | .cmp o a b, r, h, y, hy => by
+      simp only [deps] at h
+      obtain ⟨x, hx, h⟩ := except_bind_ok h
+      obtain ⟨z, hz, h⟩ := except_bind_ok h
+      cases h
+      rcases mem_unionPy hy with hy | hy
+      · exact .cmp_l (deps_occ a x hx y hy)
+      · exact .cmp_r (deps_occ b z hz y hy)
+  | .subscript a b, r, h, y, hy => by
+      simp only [deps] at h
+      cases hs : fl.subscripts <;> simp only [hs, Bool.false_eq_true, if_false, if_true] at h
+      · obtain ⟨x, hx, h⟩ := except_bind_ok h
+        obtain ⟨z, hz, h⟩ := except_bind_ok h
+        cases h
+        rcases mem_unionPy hy with hy | hy
+        · exact .subscript_l hs (deps_occ a x hx y hy)
+        · exact .subscript_r hs (deps_occ b z hz y hy)
+      · rw [depSingle_mem h hy]; exact .subscript_sel hs
+  | .ite a b c, r, h, y, hy => by
+      simp only [deps] at h
+      obtain ⟨x, hx, h⟩ := except_bind_ok h
+      obtain ⟨z, hz, h⟩ := except_bind_ok h
+      obtain ⟨w, hw, h⟩ := except_bind_ok h
+      cases h
+      rcases mem_unionPy hy with hy | hy
+      · rcases mem_unionPy hy with hy | hy
+        · exact .ite_c (deps_occ a x hx y hy)
+        · exact .ite_t (deps_occ b z hz y hy)
+      · exact .ite_e (deps_occ c w hw y hy)
+  | .un o a, r, h, y, hy => by
+      simp only [deps] at h
+      exact .un (deps_occ a r h y hy)
+  | .lookup a n, r, h, y, hy => by
+      simp only [deps] at h
+      cases hs : fl.lookups <;> simp only [hs, Bool.false_eq_true, if_false, if_true] at h
+      · exact .lookup_in hs (deps_occ a r h y hy)
+      · rw [depSingle_mem h hy]; exact .lookup_sel hs
+  | .cse a p s, r, h, y, hy => by
+      simp only [deps] at h
+      split at h
+      · cases h
+      · cases hs : fl.cses <;> simp only [hs, Bool.false_eq_true, if_false, if_true] at h
+        · exact .cse_in hs (deps_occ a r h y hy)
+        · cases h; simp only [List.mem_singleton] at hy; subst hy; exact .cse_sel hs
+  | .nary o cs, r, h, y, hy => by
+      simp only [deps] at h
+      obtain ⟨c, hc, ho⟩ := depsL_occ cs r h y hy
+      exact .nary hc ho
+  | .tuple cs, r, h, y, hy => by
+      simp only [deps] at h
+      obtain ⟨c, hc, ho⟩ := depsL_occ cs r h y hy
+      exact .tuple hc ho
+  | .list cs, r, h, y, hy => by
+      simp only [deps] at h
+      obtain ⟨c, hc, ho⟩ := depsL_occ cs r h y hy
+      exact .list hc ho
+  | .slice cs, r, h, y, hy => by
+      simp only [deps] at h
+      obtain ⟨c, hc, ho⟩ := depsSlice_occ cs r h y hy
+      exact .slice hc ho
+  | .call a cs, r, h, y, hy => by
+      simp only [deps] at h
+      cases hs : fl.calls <;> simp only [hs] at h
+      · rw [depSingle_mem h hy]; exact .call_sel hs
+      · obtain ⟨x, hx, h⟩ := except_bind_ok h
+        obtain ⟨z, hz, h⟩ := except_bind_ok h
+        cases h
+        rcases mem_unionPy hy with hy | hy
+        · exact .call_fn hs (deps_occ a x hx y hy)
+        · obtain ⟨c, hc, ho⟩ := depsL_occ cs z hz y hy
+          exact .call_arg (by simp [hs]) hc ho
+      · obtain ⟨c, hc, ho⟩ := depsL_occ cs r h y hy
+        exact .call_arg (by simp [hs]) hc ho
+  | .callKw a bs ns cs, r, h, y, hy => by
+      simp only [deps] at h
+      cases hs : fl.calls <;> simp only [hs] at h
+      · rw [depSingle_mem h hy]; exact .callKw_sel hs
+      · obtain ⟨x, hx, h⟩ := except_bind_ok h
+        obtain ⟨z, hz, h⟩ := except_bind_ok h
+        obtain ⟨w, hw, h⟩ := except_bind_ok h
+        cases h
+        rcases mem_unionPy hy with hy | hy
+        · rcases mem_unionPy hy with hy | hy
+          · exact .callKw_fn hs (deps_occ a x hx y hy)
+          · obtain ⟨c, hc, ho⟩ := depsL_occ bs z hz y hy
+            exact .callKw_arg (by simp [hs]) hc ho
+        · obtain ⟨c, hc, ho⟩ := depsL_occ cs w hw y hy
+          exact .callKw_kwarg (by simp [hs]) hc ho
+      · obtain ⟨z, hz, h⟩ := except_bind_ok h
+        obtain ⟨w, hw, h⟩ := except_bind_ok h
+        cases h
+        rcases mem_unionPy hy with hy | hy
+        · obtain ⟨c, hc, ho⟩ := depsL_occ bs z hz y hy
+          exact .callKw_arg (by simp [hs]) hc ho
+        · obtain ⟨c, hc, ho⟩ := depsL_occ cs w hw y hy
+          exact .callKw_kwarg (by simp [hs]) hc ho
+theorem depsL_occ : ∀ (cs : List Expr) (r : List Expr), depsL fl cs = .ok r →
+    ∀ y ∈ r, ∃ c ∈ cs, Occurs fl c y
+  | [], r, h, y, hy => by cases h; simp at hy
+  | c :: cs, r, h, y, hy => by
+      simp only [depsL] at h
+      obtain ⟨x, hx, h⟩ := except_bind_ok h
+      obtain ⟨z, hz, h⟩ := except_bind_ok h
+      cases h
+      rcases mem_unionPy hy with hy | hy
+      · exact ⟨c, by simp, deps_occ c x hx y hy⟩
+      · obtain ⟨d, hd, ho⟩ := depsL_occ cs z hz y hy
+        exact ⟨d, by simp [hd], ho⟩
+theorem depsSlice_occ : ∀ (cs : List Expr) (r : List Expr), depsSlice fl cs = .ok r →
+    ∀ y ∈ r, ∃ c ∈ cs, Occurs fl c y
+  | [], r, h, y, hy => by cases h; simp at hy
+  | c :: cs, r, h, y, hy => by
+      by_cases hc : c = .const .none
+      · subst hc
+        simp only [depsSlice] at h
+        obtain ⟨d, hd, ho⟩ := depsSlice_occ cs r h y hy
+        exact ⟨d, by simp [hd], ho⟩
+      · rw [depsSlice.eq_3 _ _ _ hc] at h
+        obtain ⟨x, hx, h⟩ := except_bind_ok h
+        obtain ⟨z, hz, h⟩ := except_bind_ok h
+        cases h
+        rcases mem_unionPy hy with hy | hy
+        · exact ⟨c, by simp, deps_occ c x hx y hy⟩
+        · obtain ⟨d, hd, ho⟩ := depsSlice_occ cs z hz y hy
+          exact ⟨d, by simp [hd], ho⟩
+end
+
+/-- **Soundness (exact form).**  Everything `DependencyMapper` returns is an occurrence in the
+sense of `Occurs`. -/
+theorem deps_sound_occurs (e : Expr) (r : List Expr) (h : deps fl e = .ok r) (y : Expr)
+    (hy : y ∈ r) : Occurs fl e y :=
+  deps_occ e r h y hy
+
+/-- **Soundness.**  Every reported dependency is a subterm of the input, and it is a variable or
+a node of a kind the flags select. -/
+theorem deps_mem_subterm (e : Expr) (r : List Expr) (h : deps fl e = .ok r) (y : Expr)
+    (hy : y ∈ r) : Subterm y e ∧ Selected fl y :=
+  (deps_occ e r h y hy).subterm_selected
+
+end
+
+/-! ### completeness of `DependencyMapper` up to Python `==` -/
+
+/-- a class of expressions closed under children on which Python `==` is reflexive and transitive
+(instantiated with well-formed expressions via `PV/Proofs/PyEqEquiv.lean`) -/
+structure EqUniverse (W : Expr → Prop) : Prop where
+  child : ∀ e c, W e → c ∈ e.children → W c
+  refl : ∀ a, W a → a.pyEq a = true
+  trans : ∀ a b c, W a → W b → W c → a.pyEq b = true → b.pyEq c = true → a.pyEq c = true
+
+/-- `x` is represented in `r` up to Python `==` -/
+def Rep (r : List Expr) (x : Expr) : Prop := ∃ y ∈ r, y.pyEq x = true
+
+section
+set_option linter.unusedSectionVars false
+variable {fl : DepFlags} {W : Expr → Prop} (hW : EqUniverse W)
+include hW
+
+theorem EqUniverse.subterm {t e : Expr} (h : Subterm t e) : W e → W t := by
+  induction h with
+  | refl => exact id
+  | step _ hc ih => exact fun he => ih (hW.child _ _ he hc)
+
+theorem EqUniverse.deps_mem {e : Expr} {r : List Expr} (he : W e) (h : deps fl e = .ok r) :
+    ∀ y ∈ r, W y :=
+  fun y hy => hW.subterm (deps_mem_subterm e r h y hy).1 he
+
+omit hW in
+theorem Rep.union_left {a b : List Expr} {x : Expr} (h : Rep a x) : Rep (unionPy a b) x := by
+  obtain ⟨y, hy, hyx⟩ := h
+  exact ⟨y, mem_unionPy_left hy, hyx⟩
+
+theorem Rep.union_right {a b : List Expr} {x : Expr} (hb : ∀ y ∈ b, W y)
+    (hab : ∀ y ∈ unionPy a b, W y) (hx : W x) (h : Rep b x) : Rep (unionPy a b) x := by
+  obtain ⟨y, hy, hyx⟩ := h
+  obtain ⟨y', hy', rfl | h'⟩ := mem_unionPy_right (a := a) hy
+  · exact ⟨y', hy', hyx⟩
+  · exact ⟨y', hy', hW.trans y' y x (hab y' hy') (hb y hy) hx h' hyx⟩
+
+theorem mem_union_W {a b : List Expr} (ha : ∀ y ∈ a, W y) (hb : ∀ y ∈ b, W y) :
+    ∀ y ∈ unionPy a b, W y := by
+  intro y hy
+  rcases mem_unionPy hy with h | h
+  · exact ha y h
+  · exact hb y h
+
+theorem depsL_mem : ∀ (cs : List Expr) (r : List Expr), (∀ c ∈ cs, W c) → depsL fl cs = .ok r →
+    ∀ y ∈ r, W y
+  | [], r, _, h => by cases h; simp
+  | c :: cs, r, hc, h => by
+      simp only [depsL] at h
+      obtain ⟨x, hx, h⟩ := except_bind_ok h
+      obtain ⟨z, hz, h⟩ := except_bind_ok h
+      cases h
+      exact mem_union_W hW (hW.deps_mem (hc c (by simp)) hx)
+        (depsL_mem cs z (fun c h => hc c (by simp [h])) hz)
+
+theorem depsSlice_mem : ∀ (cs : List Expr) (r : List Expr), (∀ c ∈ cs, W c) →
+    depsSlice fl cs = .ok r → ∀ y ∈ r, W y
+  | [], r, _, h => by cases h; simp
+  | c :: cs, r, hc, h => by
+      by_cases hn : c = .const .none
+      · subst hn
+        simp only [depsSlice] at h
+        exact depsSlice_mem cs r (fun c h => hc c (by simp [h])) h
+      · rw [depsSlice.eq_3 _ _ _ hn] at h
+        obtain ⟨x, hx, h⟩ := except_bind_ok h
+        obtain ⟨z, hz, h⟩ := except_bind_ok h
+        cases h
+        exact mem_union_W hW (hW.deps_mem (hc c (by simp)) hx)
+          (depsSlice_mem cs z (fun c h => hc c (by simp [h])) hz)
+
+theorem depsL_rep {c x : Expr} (hx : W x)
+    (ih : ∀ r', deps fl c = .ok r' → Rep r' x) : ∀ (cs : List Expr) (r : List Expr),
+    (∀ c ∈ cs, W c) → depsL fl cs = .ok r → c ∈ cs → Rep r x
+  | [], r, _, _, hc => by simp at hc
+  | d :: cs, r, hw, h, hc => by
+      simp only [depsL] at h
+      obtain ⟨a, ha, h⟩ := except_bind_ok h
+      obtain ⟨b, hb, h⟩ := except_bind_ok h
+      cases h
+      simp only [List.mem_cons] at hc
+      rcases hc with rfl | hc
+      · exact (ih a ha).union_left
+      · have hbW := depsL_mem hW cs b (fun c h => hw c (by simp [h])) hb
+        exact Rep.union_right hW hbW (mem_union_W hW (hW.deps_mem (hw _ (by simp)) ha) hbW) hx
+          (depsL_rep hx ih cs b (fun c h => hw c (by simp [h])) hb hc)
+
+theorem depsSlice_rep {c x : Expr} (hx : W x) (hcn : c ≠ .const .none)
+    (ih : ∀ r', deps fl c = .ok r' → Rep r' x) : ∀ (cs : List Expr) (r : List Expr),
+    (∀ c ∈ cs, W c) → depsSlice fl cs = .ok r → c ∈ cs → Rep r x
+  | [], r, _, _, hc => by simp at hc
+  | d :: cs, r, hw, h, hc => by
+      by_cases hn : d = .const .none
+      · subst hn
+        simp only [depsSlice] at h
+        simp only [List.mem_cons] at hc
+        rcases hc with rfl | hc
+        · exact absurd rfl hcn
+        · exact depsSlice_rep hx hcn ih cs r (fun c h => hw c (by simp [h])) h hc
+      · rw [depsSlice.eq_3 _ _ _ hn] at h
+        obtain ⟨a, ha, h⟩ := except_bind_ok h
+        obtain ⟨b, hb, h⟩ := except_bind_ok h
+        cases h
+        simp only [List.mem_cons] at hc
+        rcases hc with rfl | hc
+        · exact (ih a ha).union_left
+        · have hbW := depsSlice_mem hW cs b (fun c h => hw c (by simp [h])) hb
+          exact Rep.union_right hW hbW (mem_union_W hW (hW.deps_mem (hw _ (by simp)) ha) hbW) hx
+            (depsSlice_rep hx hcn ih cs b (fun c h => hw c (by simp [h])) hb hc)
+
+/-- **Completeness.**  Every occurrence (variable, or outermost selected composite) is reported, up
+to Python `==` (the result is a set under `==`, so an `==`-equal representative may stand for it). -/
+theorem deps_complete_gen {e x : Expr} (ho : Occurs fl e x) :
+    ∀ (r : List Expr), W e → deps fl e = .ok r → Rep r x := by
+  induction ho with
+  | var x =>
+    intro r hw h; cases h
+    exact ⟨.var x, by simp, hW.refl _ hw⟩
+  | @call_sel f as hs =>
+    intro r hw h
+    simp only [deps, hs, depSingle] at h
+    split at h
+    · cases h
+    · cases h; exact ⟨_, by simp, hW.refl _ hw⟩
+  | @callKw_sel f as ns vs hs =>
+    intro r hw h
+    simp only [deps, hs, depSingle] at h
+    split at h
+    · cases h
+    · cases h; exact ⟨_, by simp, hW.refl _ hw⟩
+  | @lookup_sel a n hs =>
+    intro r hw h
+    simp only [deps, hs, depSingle, if_true] at h
+    split at h
+    · cases h
+    · cases h; exact ⟨_, by simp, hW.refl _ hw⟩
+  | @subscript_sel a i hs =>
+    intro r hw h
+    simp only [deps, hs, depSingle, if_true] at h
+    split at h
+    · cases h
+    · cases h; exact ⟨_, by simp, hW.refl _ hw⟩
+  | @cse_sel c p s hs =>
+    intro r hw h
+    simp only [deps, hs, if_true] at h
+    split at h
+    · cases h
+    · cases h; exact ⟨_, by simp, hW.refl _ hw⟩
+  | @call_fn f as x hs ho ih =>
+    intro r hw h
+    simp only [deps, hs] at h
+    obtain ⟨a, ha, h⟩ := except_bind_ok h
+    obtain ⟨b, hb, h⟩ := except_bind_ok h
+    cases h
+    exact (ih a (hW.child _ _ hw (by simp [Expr.children])) ha).union_left
+  | @call_arg f as c x hs hc ho ih =>
+    intro r hw h
+    have hx : W x := hW.subterm ho.subterm_selected.1 (hW.child _ _ hw (by simp [Expr.children, hc]))
+    have hwas : ∀ c ∈ as, W c := fun c hc => hW.child _ _ hw (by simp [Expr.children, hc])
+    have hwc := hwas c hc
+    simp only [deps] at h
+    cases hcs : fl.calls <;> simp only [hcs] at h
+    · exact absurd hcs hs
+    · obtain ⟨a, ha, h⟩ := except_bind_ok h
+      obtain ⟨b, hb, h⟩ := except_bind_ok h
+      cases h
+      have hbW := depsL_mem hW as b hwas hb
+      exact Rep.union_right hW hbW
+        (mem_union_W hW (hW.deps_mem (hW.child _ _ hw (by simp [Expr.children])) ha) hbW) hx
+        (depsL_rep hW hx (fun r' h' => ih r' hwc h') as b hwas hb hc)
+    · exact depsL_rep hW hx (fun r' h' => ih r' hwc h') as r hwas h hc
+  | @callKw_fn f as ns vs x hs ho ih =>
+    intro r hw h
+    simp only [deps, hs] at h
+    obtain ⟨a, ha, h⟩ := except_bind_ok h
+    obtain ⟨b, hb, h⟩ := except_bind_ok h
+    obtain ⟨c, hc, h⟩ := except_bind_ok h
+    cases h
+    exact (ih a (hW.child _ _ hw (by simp [Expr.children])) ha).union_left.union_left
+  | @callKw_arg f as ns vs c x hs hc ho ih =>
+    intro r hw h
+    have hx : W x := hW.subterm ho.subterm_selected.1 (hW.child _ _ hw (by simp [Expr.children, hc]))
+    have hwas : ∀ c ∈ as, W c := fun c hc => hW.child _ _ hw (by simp [Expr.children, hc])
+    have hwvs : ∀ c ∈ vs, W c := fun c hc => hW.child _ _ hw (by simp [Expr.children, hc])
+    have hwc := hwas c hc
+    simp only [deps] at h
+    cases hcs : fl.calls <;> simp only [hcs] at h
+    · exact absurd hcs hs
+    · obtain ⟨a, ha, h⟩ := except_bind_ok h
+      obtain ⟨b, hb, h⟩ := except_bind_ok h
+      obtain ⟨d, hd, h⟩ := except_bind_ok h
+      cases h
+      have hbW := depsL_mem hW as b hwas hb
+      exact (Rep.union_right hW hbW
+        (mem_union_W hW (hW.deps_mem (hW.child _ _ hw (by simp [Expr.children])) ha) hbW) hx
+        (depsL_rep hW hx (fun r' h' => ih r' hwc h') as b hwas hb hc)).union_left
+    · obtain ⟨b, hb, h⟩ := except_bind_ok h
+      obtain ⟨d, hd, h⟩ := except_bind_ok h
+      cases h
+      exact (depsL_rep hW hx (fun r' h' => ih r' hwc h') as b hwas hb hc).union_left
+  | @callKw_kwarg f as ns vs c x hs hc ho ih =>
+    intro r hw h
+    have hx : W x := hW.subterm ho.subterm_selected.1 (hW.child _ _ hw (by simp [Expr.children, hc]))
+    have hwas : ∀ c ∈ as, W c := fun c hc => hW.child _ _ hw (by simp [Expr.children, hc])
+    have hwvs : ∀ c ∈ vs, W c := fun c hc => hW.child _ _ hw (by simp [Expr.children, hc])
+    have hwc := hwvs c hc
+    simp only [deps] at h
+    cases hcs : fl.calls <;> simp only [hcs] at h
+    · exact absurd hcs hs
+    · obtain ⟨a, ha, h⟩ := except_bind_ok h
+      obtain ⟨b, hb, h⟩ := except_bind_ok h
+      obtain ⟨d, hd, h⟩ := except_bind_ok h
+      cases h
+      have hbW := depsL_mem hW as b hwas hb
+      have hdW := depsL_mem hW vs d hwvs hd
+      have haW := hW.deps_mem (hW.child _ _ hw (by simp [Expr.children])) ha
+      exact Rep.union_right hW hdW (mem_union_W hW (mem_union_W hW haW hbW) hdW) hx
+        (depsL_rep hW hx (fun r' h' => ih r' hwc h') vs d hwvs hd hc)
+    · obtain ⟨b, hb, h⟩ := except_bind_ok h
+      obtain ⟨d, hd, h⟩ := except_bind_ok h
+      cases h
+      have hbW := depsL_mem hW as b hwas hb
+      have hdW := depsL_mem hW vs d hwvs hd
+      exact Rep.union_right hW hdW (mem_union_W hW hbW hdW) hx
+        (depsL_rep hW hx (fun r' h' => ih r' hwc h') vs d hwvs hd hc)
+  | @lookup_in a n x hs ho ih =>
+    intro r hw h
+    simp only [deps, hs, Bool.false_eq_true, if_false] at h
+    exact ih r (hW.child _ _ hw (by simp [Expr.children])) h
+  | @cse_in c p s x hs ho ih =>
+    intro r hw h
+    simp only [deps, hs, Bool.false_eq_true, if_false] at h
+    split at h
+    · cases h
+    · exact ih r (hW.child _ _ hw (by simp [Expr.children])) h
+  | @un o a x ho ih =>
+    intro r hw h
+    simp only [deps] at h
+    exact ih r (hW.child _ _ hw (by simp [Expr.children])) h
+  | @subscript_l a i x hs ho ih =>
+    intro r hw h
+    simp only [deps, hs, Bool.false_eq_true, if_false] at h
+    obtain ⟨p, hp, h⟩ := except_bind_ok h
+    obtain ⟨q, hq, h⟩ := except_bind_ok h
+    cases h
+    exact (ih p (hW.child _ _ hw (by simp [Expr.children])) hp).union_left
+  | @subscript_r a i x hs ho ih =>
+    intro r hw h
+    have hwi : W i := hW.child _ _ hw (by simp [Expr.children])
+    simp only [deps, hs, Bool.false_eq_true, if_false] at h
+    obtain ⟨p, hp, h⟩ := except_bind_ok h
+    obtain ⟨q, hq, h⟩ := except_bind_ok h
+    cases h
+    have hqW := hW.deps_mem hwi hq
+    exact Rep.union_right hW hqW
+      (mem_union_W hW (hW.deps_mem (hW.child _ _ hw (by simp [Expr.children])) hp) hqW)
+      (hW.subterm ho.subterm_selected.1 hwi) (ih q hwi hq)
+  | @bin_l o a b x ho ih =>
+    intro r hw h
+    simp only [deps] at h
+    obtain ⟨p, hp, h⟩ := except_bind_ok h
+    obtain ⟨q, hq, h⟩ := except_bind_ok h
+    cases h
+    exact (ih p (hW.child _ _ hw (by simp [Expr.children])) hp).union_left
+  | @bin_r o a b x ho ih =>
+    intro r hw h
+    have hwi : W b := hW.child _ _ hw (by simp [Expr.children])
+    simp only [deps] at h
+    obtain ⟨p, hp, h⟩ := except_bind_ok h
+    obtain ⟨q, hq, h⟩ := except_bind_ok h
+    cases h
+    have hqW := hW.deps_mem hwi hq
+    exact Rep.union_right hW hqW
+      (mem_union_W hW (hW.deps_mem (hW.child _ _ hw (by simp [Expr.children])) hp) hqW)
+      (hW.subterm ho.subterm_selected.1 hwi) (ih q hwi hq)
+  | @cmp_l o a b x ho ih =>
+    intro r hw h
+    simp only [deps] at h
+    obtain ⟨p, hp, h⟩ := except_bind_ok h
+    obtain ⟨q, hq, h⟩ := except_bind_ok h
+    cases h
+    exact (ih p (hW.child _ _ hw (by simp [Expr.children])) hp).union_left
+  | @cmp_r o a b x ho ih =>
+    intro r hw h
+    have hwi : W b := hW.child _ _ hw (by simp [Expr.children])
+    simp only [deps] at h
+    obtain ⟨p, hp, h⟩ := except_bind_ok h
+    obtain ⟨q, hq, h⟩ := except_bind_ok h
+    cases h
+    have hqW := hW.deps_mem hwi hq
+    exact Rep.union_right hW hqW
+      (mem_union_W hW (hW.deps_mem (hW.child _ _ hw (by simp [Expr.children])) hp) hqW)
+      (hW.subterm ho.subterm_selected.1 hwi) (ih q hwi hq)
+  | @ite_c c t e x ho ih =>
+    intro r hw h
+    simp only [deps] at h
+    obtain ⟨p, hp, h⟩ := except_bind_ok h
+    obtain ⟨q, hq, h⟩ := except_bind_ok h
+    obtain ⟨u, hu, h⟩ := except_bind_ok h
+    cases h
+    exact (ih p (hW.child _ _ hw (by simp [Expr.children])) hp).union_left.union_left
+  | @ite_t c t e x ho ih =>
+    intro r hw h
+    have hwi : W t := hW.child _ _ hw (by simp [Expr.children])
+    simp only [deps] at h
+    obtain ⟨p, hp, h⟩ := except_bind_ok h
+    obtain ⟨q, hq, h⟩ := except_bind_ok h
+    obtain ⟨u, hu, h⟩ := except_bind_ok h
+    cases h
+    have hqW := hW.deps_mem hwi hq
+    exact (Rep.union_right hW hqW
+      (mem_union_W hW (hW.deps_mem (hW.child _ _ hw (by simp [Expr.children])) hp) hqW)
+      (hW.subterm ho.subterm_selected.1 hwi) (ih q hwi hq)).union_left
+  | @ite_e c t e x ho ih =>
+    intro r hw h
+    have hwi : W e := hW.child _ _ hw (by simp [Expr.children])
+    simp only [deps] at h
+    obtain ⟨p, hp, h⟩ := except_bind_ok h
+    obtain ⟨q, hq, h⟩ := except_bind_ok h
+    obtain ⟨u, hu, h⟩ := except_bind_ok h
+    cases h
+    have huW := hW.deps_mem hwi hu
+    have hpW := hW.deps_mem (hW.child _ _ hw (by simp [Expr.children])) hp
+    have hqW := hW.deps_mem (hW.child _ _ hw (by simp [Expr.children])) hq
+    exact Rep.union_right hW huW (mem_union_W hW (mem_union_W hW hpW hqW) huW)
+      (hW.subterm ho.subterm_selected.1 hwi) (ih u hwi hu)
+  | @nary o cs c x hc ho ih =>
+    intro r hw h
+    have hwcs : ∀ c ∈ cs, W c := fun c hc => hW.child _ _ hw (by simp [Expr.children, hc])
+    simp only [deps] at h
+    exact depsL_rep hW (hW.subterm ho.subterm_selected.1 (hwcs c hc))
+      (fun r' h' => ih r' (hwcs c hc) h') cs r hwcs h hc
+  | @tuple cs c x hc ho ih =>
+    intro r hw h
+    have hwcs : ∀ c ∈ cs, W c := fun c hc => hW.child _ _ hw (by simp [Expr.children, hc])
+    simp only [deps] at h
+    exact depsL_rep hW (hW.subterm ho.subterm_selected.1 (hwcs c hc))
+      (fun r' h' => ih r' (hwcs c hc) h') cs r hwcs h hc
+  | @list cs c x hc ho ih =>
+    intro r hw h
+    have hwcs : ∀ c ∈ cs, W c := fun c hc => hW.child _ _ hw (by simp [Expr.children, hc])
+    simp only [deps] at h
+    exact depsL_rep hW (hW.subterm ho.subterm_selected.1 (hwcs c hc))
+      (fun r' h' => ih r' (hwcs c hc) h') cs r hwcs h hc
+  | @slice cs c x hc ho ih =>
+    intro r hw h
+    have hwcs : ∀ c ∈ cs, W c := fun c hc => hW.child _ _ hw (by simp [Expr.children, hc])
+    have hcn : c ≠ .const .none := by rintro rfl; cases ho
+    simp only [deps] at h
+    exact depsSlice_rep hW (hW.subterm ho.subterm_selected.1 (hwcs c hc)) hcn
+      (fun r' h' => ih r' (hwcs c hc) h') cs r hwcs h hc
+
+end
+
+/-! ### completeness, instantiated: well-formed expressions -/
+
+theorem wf_children {e c : Expr} (h : e.wf = true) (hc : c ∈ e.children) : c.wf = true := by
+  cases e <;> simp only [Expr.children, List.mem_cons, List.mem_append, List.not_mem_nil,
+    or_false] at hc <;> simp only [Expr.wf, Bool.and_eq_true, wfL_iff] at h
+  all_goals first
+    | exact h c hc
+    | (rcases hc with rfl | rfl | rfl <;> simp_all)
+    | (rcases hc with rfl | rfl <;> simp_all)
+    | (rcases hc with rfl | hc | hc
+       · exact h.1.1.1.1
+       · exact h.1.1.1.2 c hc
+       · exact h.2 c hc)
+    | (rcases hc with rfl | hc
+       · exact h.1
+       · exact h.2 c hc)
+    | (subst hc; simp_all)
+    | simp at hc
+
+/-- well-formed expressions (duplicate-free parallel keyword lists, no nan constant) form an
+`EqUniverse`: this is part A (`pyEq_refl`, `pyEq_trans`) -/
+theorem eqUniverse_wf : EqUniverse (fun e => e.wf = true) where
+  child := fun _ _ h hc => wf_children h hc
+  refl := pyEq_refl
+  trans := pyEq_trans
+
+/-- **Completeness.**  On a well-formed expression, every occurrence `x` — a variable, or an
+outermost subscript / lookup / call / CSE the flags select — is reported by `DependencyMapper` up
+to Python `==`: the result contains some `y` with `y == x`. -/
+theorem deps_complete {fl : DepFlags} {e x : Expr} {r : List Expr} (hwf : e.wf = true)
+    (ho : Occurs fl e x) (h : deps fl e = .ok r) : ∃ y ∈ r, y.pyEq x = true :=
+  deps_complete_gen eqUniverse_wf ho r hwf h
+
+/-- Soundness and completeness together: the reported set and the set of occurrences are equal
+modulo Python `==`. -/
+theorem deps_exact {fl : DepFlags} {e : Expr} {r : List Expr} (hwf : e.wf = true)
+    (h : deps fl e = .ok r) :
+    (∀ y ∈ r, Occurs fl e y) ∧ (∀ x, Occurs fl e x → ∃ y ∈ r, y.pyEq x = true) :=
+  ⟨fun y hy => deps_sound_occurs e r h y hy, fun _ ho => deps_complete hwf ho h⟩
+
+/-- For variables the representative is the variable itself. -/
+theorem deps_complete_var {fl : DepFlags} {e : Expr} {n : String} {r : List Expr}
+    (hwf : e.wf = true) (ho : Occurs fl e (.var n)) (h : deps fl e = .ok r) : .var n ∈ r := by
+  obtain ⟨y, hy, hyx⟩ := deps_complete hwf ho h
+  rw [← pyEq_var_right hyx]; exact hy
+
+/-! ### witnesses -/
+
+def demoE : Expr :=
+  .nary .sum [.subscript (.var "x") (.var "i"),
+    .lookup (.call (.var "f") [.var "y", .var "x"]) "a", .const (.flt "1.0" 1 1)]
+
+example : deps offFlags demoE = .ok [.var "x", .var "i", .var "f", .var "y"] := rfl
+example : fv demoE = ["x", "i", "f", "y", "x"] := rfl
+example : deps {} demoE =
+    .ok [.subscript (.var "x") (.var "i"), .lookup (.call (.var "f") [.var "y", .var "x"]) "a"] :=
+  rfl
+example : deps { lookups := false, calls := .descend } demoE =
+    .ok [.subscript (.var "x") (.var "i"), .var "y", .var "x"] := rfl
+/-- the result is a set under Python `==`: `1` and `True` subscripts collapse to the first one -/
+example : deps {} (.nary .sum [.subscript (.var "x") (.const (.int 1)),
+      .subscript (.var "x") (.const (.bool true))]) =
+    .ok [.subscript (.var "x") (.const (.int 1))] := rfl
+example : Occurs { lookups := false, calls := .descend } demoE (.var "y") :=
+  .nary (c := .lookup (.call (.var "f") [.var "y", .var "x"]) "a") (by simp)
+    (.lookup_in rfl (.call_arg (by simp) (by simp) (.var "y")))
+/-- why completeness needs well-formedness: a selected node containing nan is reported, but is not
+`==` to itself -/
+example :
+    let e := Expr.subscript (.var "x") (.const (.flt "nan" 0 0))
+    deps {} e = .ok [e] ∧ Occurs {} e e ∧ e.pyEq e = false :=
+  ⟨rfl, .subscript_sel rfl, by decide⟩
+/-- coincidence in action: the value of `z` is irrelevant for `demoE` -/
+example (v w : Value) (env : Env) :
+    den (("z", v) :: env) demoE = den (("z", w) :: env) demoE :=
+  coincidence demoE (fun x hx => by
+    have : x ≠ "z" := by
+      simp only [demoE, fv, fvL, List.mem_append, List.mem_cons, List.not_mem_nil] at hx
+      rintro rfl; simp at hx
+    simp [Env.get, Ne.symm this])
+
+end PV.C09
